@@ -609,6 +609,9 @@ class Interp:
             if idx[0].start is None and idx[1].start is None and idx[0].stop == v.r and idx[1].stop == v.c:
                 return v
             self.bad(e, 'crop to a different size (dims %r %r)' % (v.r, v.c))
+        if isinstance(v, Mx) and not v.vec and v.r == 1 and isinstance(idx, int) and not isinstance(idx, bool) and idx == 0:
+            # row 0 of a one-row array: the same 1 x n matrix, now as a numpy 1-D array
+            return Mx(v.coq, 1, v.c, vec=True, atom=v.atom, ev=lambda env: _np().atleast_2d(v.ev(env))[0])
         if isinstance(v, Mx) and not v.vec and isinstance(idx, RowIdx):
             return Mx('row %s %s' % (idx.name, v.p()), 1, v.c, vec=True, ev=lambda env: v.ev(env)[env[idx.name]])
         self.bad(e, 'subscript')
@@ -702,6 +705,10 @@ class Interp:
     def builtin(self, q, args, kwargs, e):
         if q in ('numpy.dot', 'numpy.matmul') and len(args) == 2 and not kwargs and all(isinstance(a, Mx) for a in args):
             return self.dot(args[0], args[1], e)
+        if q == 'numpy.multiply' and len(args) == 2 and not kwargs and isinstance(args[0], Mx) and isinstance(args[1], Mx) \
+                and not args[0].vec and args[1].vec and args[0].c == args[1].c:
+            A, v = args
+            return Mx('colmul %s %s' % (A.p(), v.p()), A.r, A.c, ev=lambda env: A.ev(env) * v.ev(env)[None, :])
         if q == 'numpy.transpose' and len(args) == 1 and not kwargs and isinstance(args[0], Mx) and not args[0].vec:
             v = args[0]
             return Mx('%s^T' % v.p(), v.c, v.r, atom=True, ev=lambda env: v.ev(env).T)
@@ -738,6 +745,9 @@ class Interp:
             return Mx('%s%%:M' % s.p(), k0, k0, atom=True, ev=lambda env: s.ev(env) * _np().eye(dim_val(k0, env)))
         if q == 'numpy.atleast_2d' and len(args) == 1 and isinstance(args[0], Mx) and not args[0].vec:
             return args[0]
+        if q == 'numpy.atleast_2d' and len(args) == 1 and isinstance(args[0], Mx) and args[0].vec:
+            v = args[0]
+            return Mx(v.coq, 1, v.c, vec=False, atom=v.atom, ev=lambda env: _np().atleast_2d(v.ev(env)))
         if q == 'numpy.tensordot' and len(args) == 2 and kwargs == {'axes': (1, 1)} \
                 and all(isinstance(a, Mx) and not a.vec for a in args):
             X, D = args
